@@ -82,6 +82,7 @@ type Result struct {
 	Inlined int      // call sites inlined
 	Left    []string // call sites of new helpers that were left alone, with the reason
 	Files   map[string][]byte
+	Renamed []string // struct fields spelled by their pinned names again ("pkg.Type.new -> old")
 }
 
 // Normalize returns prog with the calls to new helpers inlined (prog itself when there is nothing to do).
@@ -94,8 +95,12 @@ func NormalizeFully(prog *load.Program) (*load.Program, *Result, error) { return
 // Views returns the distinct programs a rule may be judged on: the tree as written, the tree with new helpers spliced
 // in, and the tree with every call of a new helper inlined (as a function literal where splicing is impossible).
 func Views(prog *load.Program) ([]*load.Program, *Result) {
+	prog, renamed := RenameFields(prog)
 	views := []*load.Program{prog}
 	p1, r1, _ := Normalize(prog)
+	if r1 != nil {
+		r1.Renamed = renamed
+	}
 	if r1 == nil || len(r1.Helpers) == 0 {
 		return views, r1
 	}
@@ -171,6 +176,12 @@ func normalize(prog *load.Program, literals bool) (*load.Program, *Result, error
 			cur = next
 			res.Inlined += n
 		}
+		if literals {
+			if next, n := inlineClosures(cur, touched, res.Files); next != nil {
+				cur = next
+				res.Inlined += n
+			}
+		}
 	}
 	// a new helper that is no longer referenced anywhere is dropped from the normalised view: its body now lives at its
 	// call sites, and rules that scan every function would otherwise judge it a second time, out of context
@@ -192,6 +203,7 @@ type helper struct {
 	name string // file name
 	decl *ast.FuncDecl
 	obj  *types.Func
+	sig  *types.Signature // set instead of obj for a local closure
 }
 
 func plan(prog *load.Program, literals bool) (map[string][]edit, []string, []string) {
@@ -266,6 +278,31 @@ func plan(prog *load.Program, literals bool) (map[string][]edit, []string, []str
 							if be.Op == token.LOR {
 								txt = "if " + x + " {\nreturn true\n}\nreturn " + y
 							}
+							edits[fname] = append(edits[fname], edit{start: tf.Offset(rs.Pos()), end: tf.Offset(rs.End()), text: txt})
+							return true
+						}
+					}
+				}
+				// `return h(a), nil`: the call gets a statement of its own first (`{ t := h(a); return t, nil }`) when every
+				// other result is a constant or nil, so that nothing is reordered; the call is inlined in the next round
+				if len(stack) >= 2 {
+					if rs, isRet := stack[len(stack)-2].(*ast.ReturnStmt); isRet && len(rs.Results) >= 2 && callee.Type().(*types.Signature).Results().Len() == 1 {
+						inert := true
+						var parts []string
+						tmp := fmt.Sprintf("ret__inl%d", tf.Offset(call.Pos()))
+						for _, r := range rs.Results {
+							if r == ast.Expr(call) {
+								parts = append(parts, tmp)
+								continue
+							}
+							tv := pk.Info.Types[r]
+							if tv.Value == nil && !tv.IsNil() {
+								inert = false
+							}
+							parts = append(parts, string(src[tf.Offset(r.Pos()):tf.Offset(r.End())]))
+						}
+						if inert {
+							txt := "{\n" + tmp + " := " + string(src[tf.Offset(call.Pos()):tf.Offset(call.End())]) + "\nreturn " + strings.Join(parts, ", ") + "\n}"
 							edits[fname] = append(edits[fname], edit{start: tf.Offset(rs.Pos()), end: tf.Offset(rs.End()), text: txt})
 							return true
 						}
@@ -356,15 +393,18 @@ func inlineCall(prog *load.Program, pk *load.Package, f *ast.File, src []byte, t
 			return edit{}, "recursive"
 		}
 	}
+	// `go h(a)` / `defer h(a)`: rewritten as `go func(p T) { body }(a)` - the arguments are still evaluated by the go /
+	// defer statement; only an argument that is a variable nobody reassigns is written into the body directly
+	asyncKind, asyncStart := "", 0
 	if len(stack) >= 2 {
 		switch p := stack[len(stack)-2].(type) {
 		case *ast.GoStmt:
 			if p.Call == call {
-				return edit{}, "go statement"
+				asyncKind, asyncStart = "go", tf.Offset(p.Pos())
 			}
 		case *ast.DeferStmt:
 			if p.Call == call {
-				return edit{}, "defer statement"
+				asyncKind, asyncStart = "defer", tf.Offset(p.Pos())
 			}
 		}
 	}
@@ -624,7 +664,7 @@ func inlineCall(prog *load.Program, pk *load.Package, f *ast.File, src []byte, t
 	}
 	// substitution plan
 	subst := map[types.Object]string{}
-	var bindNames, bindArgs []string
+	var bindNames, bindArgs, bindTypes []string
 	argFree := map[string]bool{}
 	for _, p := range params {
 		ast.Inspect(p.arg, func(m ast.Node) bool {
@@ -643,6 +683,9 @@ func inlineCall(prog *load.Program, pk *load.Package, f *ast.File, src []byte, t
 			argText = "*" + argText
 		}
 		canSubst := simpleArg(p.arg) && !assigned[p.obj] && p.ptrFix != "*"
+		if asyncKind != "" {
+			canSubst = canSubst && p.ptrFix == "" && stableVariable(pk, stack, p.arg)
+		}
 		// copy-in / copy-out: `x.f = h(x.f, ...)` where the helper updates its parameter in place and nothing else handed to
 		// it can reach x: the parameter is the location itself
 		if !canSubst && assigned[p.obj] && p.ptrFix == "" && len(stack) >= 2 {
@@ -698,6 +741,7 @@ func inlineCall(prog *load.Program, pk *load.Package, f *ast.File, src []byte, t
 		}
 		bindNames = append(bindNames, p.name)
 		bindArgs = append(bindArgs, argText)
+		bindTypes = append(bindTypes, p.typ)
 	}
 	// a bound parameter name must not capture a name mentioned by a substituted argument
 	for _, bn := range bindNames {
@@ -737,6 +781,16 @@ func inlineCall(prog *load.Program, pk *load.Package, f *ast.File, src []byte, t
 		}
 		return string(out)
 	}()
+	if asyncKind != "" {
+		if variadicBind != nil {
+			return edit{}, asyncKind + " statement with a variadic helper"
+		}
+		var ps []string
+		for i := range bindNames {
+			ps = append(ps, bindNames[i]+" "+bindTypes[i])
+		}
+		return edit{start: asyncStart, end: tf.Offset(call.End()), text: asyncKind + " func(" + strings.Join(ps, ", ") + ") " + resultDecl + " {\n" + bodyText + "\n}(" + strings.Join(bindArgs, ", ") + ")"}, ""
+	}
 	if variadicBind != nil {
 		bindNames = append(bindNames, variadicBind[0])
 		bindArgs = append(bindArgs, variadicBind[1])
@@ -754,7 +808,10 @@ func inlineCall(prog *load.Program, pk *load.Package, f *ast.File, src []byte, t
 		parent = stack[len(stack)-2]
 	}
 	callStart, callEnd := tf.Offset(call.Pos()), tf.Offset(call.End())
-	sig := h.obj.Type().(*types.Signature)
+	sig := h.sig
+	if sig == nil {
+		sig = h.obj.Type().(*types.Signature)
+	}
 	// B: helper whose body is a single `return E`, every parameter substituted: the expression, in place
 	if len(d.Body.List) == 1 && nres == 1 && len(bindNames) == 0 {
 		if rs, ok := d.Body.List[0].(*ast.ReturnStmt); ok && len(rs.Results) == 1 {
@@ -1203,4 +1260,67 @@ func dropUnreferenced(prog *load.Program, res *Result) *load.Program {
 		res.Files[f] = b
 	}
 	return next
+}
+
+// stableVariable reports whether arg is a local variable, parameter or receiver of the enclosing function declaration
+// that is never reassigned, never has its address taken and is not a loop variable: reading it later (inside a
+// goroutine or a deferred call) yields what reading it now does.
+func stableVariable(pk *load.Package, stack []ast.Node, arg ast.Expr) bool {
+	id, ok := ast.Unparen(arg).(*ast.Ident)
+	if !ok {
+		return false
+	}
+	v, ok := pk.Info.Uses[id].(*types.Var)
+	if !ok || v.IsField() || v.Parent() == nil || v.Parent() == pk.Types.Scope() {
+		return false
+	}
+	var fd *ast.FuncDecl
+	for _, n := range stack {
+		if d, ok := n.(*ast.FuncDecl); ok {
+			fd = d
+			break
+		}
+	}
+	if fd == nil || fd.Body == nil {
+		return false
+	}
+	stable := true
+	isV := func(e ast.Expr) bool {
+		x, ok := ast.Unparen(e).(*ast.Ident)
+		return ok && (pk.Info.Uses[x] == types.Object(v) || pk.Info.Defs[x] == types.Object(v))
+	}
+	ast.Inspect(fd.Body, func(n ast.Node) bool {
+		switch x := n.(type) {
+		case *ast.AssignStmt:
+			if x.Tok != token.DEFINE {
+				for _, l := range x.Lhs {
+					if isV(l) {
+						stable = false
+					}
+				}
+			}
+		case *ast.IncDecStmt:
+			if isV(x.X) {
+				stable = false
+			}
+		case *ast.UnaryExpr:
+			if x.Op == token.AND && isV(x.X) {
+				stable = false
+			}
+		case *ast.RangeStmt:
+			if (x.Key != nil && isV(x.Key)) || (x.Value != nil && isV(x.Value)) {
+				stable = false
+			}
+		case *ast.ForStmt:
+			if as, ok := x.Init.(*ast.AssignStmt); ok {
+				for _, l := range as.Lhs {
+					if isV(l) {
+						stable = false
+					}
+				}
+			}
+		}
+		return true
+	})
+	return stable
 }
